@@ -1,85 +1,88 @@
 """probe"""
 from __future__ import annotations
+import struct
 from engine.api import QUICK, REPO, cond, pick
+from harness import _tokens_common as tc
 from vgi_rpc.http.server import _state_token as st
-from vgi_rpc.rpc import AuthContext
-
 PROPERTY = "C12"
-ENCODED = [st._compute_aad]
+ENCODED = []
 BOUNDS = ""; OUTSIDE = ""; ASSUMPTIONS = []
 
-_NUL = "\x00"
+_CURSOR_MSGS = ("Malformed state token", "State token signature verification failed", "Malformed token payload", "State token expired")
+_CALL_MSGS = ("Malformed call token", "Call token signature verification failed", "Malformed token payload", "Call token expired")
+_U64 = 2**64
 
-def _auth(kind: int, dom, prin):
-    if kind == 0:
-        return None
-    return AuthContext(domain=dom, authenticated=(kind == 2), principal=prin)
-
-def _ident(kind, dom, prin):
-    if kind != 2:
-        return (False, "", "")
-    return (True, dom or "", prin or "")
-
-@cond(q=60, t=120, bound="len<=3")
-def aad_injective(k1: int, d1: str, p1: str, k2: int, d2: str, p2: str) -> bool:
+@cond(q=40)
+def cursor_round_trip(state: bytes, call_id: bytes, key: bytes, aad: bytes, created: int, pays: bool) -> bool:
     """
-    pre: 0 <= k1 <= 2 and 0 <= k2 <= 2 and len(d1) <= 3 and len(d2) <= 3 and len(p1) <= 3 and len(p2) <= 3
-    pre: _NUL not in d1 and _NUL not in d2
+    pre: len(state) <= 3 and len(call_id) == 16 and len(key) <= 2 and len(aad) <= 2 and 0 <= created < _U64
     post: _
     """
-    a1 = st._compute_aad(_auth(k1, d1, p1))
-    a2 = st._compute_aad(_auth(k2, d2, p2))
-    if a1 == a2:
-        return _ident(k1, d1, p1) == _ident(k2, d2, p2)
-    return True
+    tc.reset(now=created)
+    tc.HOLD["zstd_pays"] = pays
+    tok = tc.seal_cursor_token(state, call_id, key, aad, created)
+    try:
+        s2, c2 = tc.open_cursor_token(tok, key, aad, 0)
+    except Exception:
+        return False
+    return s2 == state and c2 == call_id
 
-
-class _U8:
-    """duck str: UTF-8 image of a string (contract: str.encode is injective; NUL-free <-> NUL-free)"""
-    __slots__ = ("b",)
-    def __init__(self, b): self.b = b
-    def encode(self): return self.b
-
-def _auth_b(kind, dom, prin):
-    if kind == 0:
-        return None
-    return AuthContext(domain=_U8(dom) if len(dom) else None, authenticated=(kind == 2), principal=_U8(prin) if len(prin) else '')
-
-_Z = b"\x00"
-
-@cond(q=60, t=120, bound="len<=3")
-def aad_injective_b(k1: int, d1: bytes, p1: bytes, k2: int, d2: bytes, p2: bytes) -> bool:
+@cond(q=60)
+def cursor_arbitrary_plaintext(data: bytes, zraw: bytes, zok: bool) -> bool:
     """
-    pre: 0 <= k1 <= 2 and 0 <= k2 <= 2 and len(d1) <= 3 and len(d2) <= 3 and len(p1) <= 3 and len(p2) <= 3
-    pre: 0 not in d1 and 0 not in d2
+    pre: len(data) <= 36 and len(zraw) <= 32
     post: _
     """
-    a1 = st._compute_aad(_auth_b(k1, d1, p1))
-    a2 = st._compute_aad(_auth_b(k2, d2, p2))
-    if a1 == a2:
-        return _ident(k1, d1, p1) == _ident(k2, d2, p2)
-    return True
+    tc.reset(now=0)
+    tc.HOLD["unzstd_ok"] = zok
+    tc.HOLD["unzstd_raw"] = zraw
+    tok = tc.Box(data, b"k", b"a", st._CURSOR_TOKEN_VERSION)
+    try:
+        s2, c2 = tc.open_cursor_token(tok, b"k", b"a", 0)
+    except Exception as e:
+        info = tc.http_error_info(e)
+        return info is not None and info[0] == 400 and info[1] in _CURSOR_MSGS
+    if data[:1] == b"\x00":
+        plain = data[1:]
+    elif data[:1] == b"\x01" and zok:
+        plain = zraw
+    else:
+        return False
+    return plain[8:] == c2 + struct.pack("<I", len(s2)) + s2 and len(c2) == 16
 
-@cond(q=60, t=120, bound="len<=3")
-def aad_injective_c(d1: bytes, p1: bytes, d2: bytes, p2: bytes) -> bool:
+@cond(q=60)
+def call_arbitrary_plaintext(data: bytes) -> bool:
     """
-    pre: len(d1) <= 3 and len(d2) <= 3 and len(p1) <= 3 and len(p2) <= 3
-    pre: 0 not in d1 and 0 not in d2
+    pre: len(data) <= 49
     post: _
     """
-    a1 = st._compute_aad(_auth_b(2, d1, p1))
-    a2 = st._compute_aad(_auth_b(2, d2, p2))
-    if a1 == a2:
-        return d1 == d2 and p1 == p2
-    return True
+    tc.reset(now=0)
+    tok = tc.Box(data, b"k", b"a", st._CALL_TOKEN_VERSION)
+    try:
+        cs, ty, sc, isc, cid, sid = tc.open_call_token(tok, b"k", b"a", 0)
+    except UnicodeDecodeError:
+        return True
+    except Exception as e:
+        info = tc.http_error_info(e)
+        return info is not None and info[0] == 400 and info[1] in _CALL_MSGS
+    if data[:1] != b"\x00":
+        return False
+    plain = data[1:]
+    tb = ty.encode(); sb = sid.encode()
+    return len(cid) == 16 and plain[8:] == cid + struct.pack("<I", len(cs)) + cs + struct.pack("<I", len(tb)) + tb + struct.pack("<I", len(sc)) + sc + struct.pack("<I", len(isc)) + isc + struct.pack("<I", len(sb)) + sb
 
-@cond(q=60, t=120, bound="len<=3")
-def aad_injective_d(d1: bytes, p1: bytes, k: int) -> bool:
+@cond(q=60)
+def call_round_trip(cs: bytes, ty: str, sc: bytes, isc: bytes, sid: str, created: int, pays: bool) -> bool:
     """
-    pre: len(d1) <= 3 and len(p1) <= 3 and 0<=k<=1
-    pre: 0 not in d1
+    pre: len(cs) <= 2 and len(ty) <= 1 and len(sc) <= 2 and len(isc) <= 2 and len(sid) <= 1 and 0 <= created < _U64
     post: _
     """
-    a1 = st._compute_aad(_auth_b(2, d1, p1))
-    a2 = st._compute_aad(_auth_b(k, d1, p1))
-    return a1 != a2
+    tc.reset(now=created)
+    tc.HOLD["zstd_pays"] = pays
+    cid = b"0123456789abcdef"
+    tok = tc.seal_call_token(cs, ty, sc, isc, cid, sid, b"k", b"a", created)
+    try:
+        r = tc.open_call_token(tok, b"k", b"a", 0)
+    except Exception:
+        return False
+    return r == (cs, ty, sc, isc, cid, sid)
